@@ -171,8 +171,8 @@ pub mod info {
     pub proof fn lemma_push_all(ids: Seq<Option<usize>>, a: usize)
         ensures
             forall|x: usize| x != a ==> spec_get(ids.push(Some(a)), x) == #[trigger] spec_get(ids, x),
-            spec_get(ids, a) == 0 ==> spec_get(ids.push(Some(a)), a) == ids.len() + 1,
-            wf_ids(ids) && spec_get(ids, a) == 0 ==> wf_ids(ids.push(Some(a))),
+            !(spec_get(ids, a) > 0) ==> spec_get(ids.push(Some(a)), a) == ids.len() + 1,
+            wf_ids(ids) && !(spec_get(ids, a) > 0) ==> wf_ids(ids.push(Some(a))),
     {
         assert forall|x: usize| x != a implies spec_get(ids.push(Some(a)), x) == #[trigger] spec_get(ids, x) by {
             lemma_push_keeps_keys(ids, Some(a), x);
@@ -240,7 +240,7 @@ pub mod info {
 
     // inserting a fresh live id at position k of a well-formed vector
     pub proof fn lemma_insert_at(ids: Seq<Option<usize>>, k: int, a: usize)
-        requires wf_ids(ids), spec_get(ids, a) == 0, 0 <= k <= ids.len(),
+        requires wf_ids(ids), !(spec_get(ids, a) > 0), 0 <= k <= ids.len(),
         ensures
             wf_ids(ids.insert(k, Some(a))),
             spec_get(ids.insert(k, Some(a)), a) == k + 1,
@@ -375,32 +375,39 @@ def build():
     G = 'spec_get(old(self).ids(), id)'
     fns['order_remove'] = Fn(
         FI, OWN, 'remove', props=P, sig_rules=[PUB], label='DocumentOrder::remove', requires=[VER1],
-        ensures=[('C14:absent_id_changes_nothing', f'{G} == 0 ==> r is None && {IDS_N} =~= {IDS_O} && final(self).version == old(self).version'),
+        ensures=[('C14:absent_id_changes_nothing', f'!({G} > 0) ==> r is None && {IDS_N} =~= {IDS_O} && final(self).version == old(self).version'),
                  ('C14:removes_exactly_that_entry', f'{G} > 0 ==> r == Some(final(self).version) && final(self).version == old(self).version + 1 && {IDS_N} =~= {IDS_O}.remove({G} - 1)'),
                  ('C14:keeps_ids_unique', 'old(self).wf() ==> final(self).wf()'),
-                 ('C14:removed_id_has_no_key', f'old(self).wf() ==> spec_get({IDS_N}, id) == 0')],
+                 ('C14:removed_id_has_no_key', f'old(self).wf() ==> !(spec_get({IDS_N}, id) > 0)'),
+                 ('C14:later_keys_move_down_by_one', f'old(self).wf() && {G} > 0 ==> forall|x: usize| x != id ==> spec_get({IDS_N}, x) == (if spec_get({IDS_O}, x) > {G} {{ spec_get({IDS_O}, x) - 1 }} else {{ #[trigger] spec_get({IDS_O}, x) }})')],
         inject=[(r'self\.version \+= 1;', 'proof { lemma_ids_edits(old(self).order@, (' + G + ' - 1) as int, arbitrary()); if old(self).wf() { lemma_remove_first(' + IDS_O + ', id); } }'),
                 (r'^\s*None\s*$', 'proof { }', 'before')])
     fns['order_push'] = Fn(
         FI, OWN, 'push', props=P, sig_rules=[PUB, R_SING], rules=[R_DOWN], label='DocumentOrder::push',
         ensures=[('C14:appends_the_id', f'{IDS_N} =~= {IDS_O}.push(Some(info.id))'),
                  ('C14:returns_new_length_and_unchanged_version', 'r == (final(self).order@.len() as usize, old(self).version) && final(self).version == old(self).version && final(self).order@.len() == old(self).order@.len() + 1'),
-                 ('C14:fresh_id_gets_the_last_key', f'spec_get({IDS_O}, info.id) == 0 ==> spec_get({IDS_N}, info.id) == r.0'),
+                 ('C14:fresh_id_gets_the_last_key', f'!(spec_get({IDS_O}, info.id) > 0) ==> spec_get({IDS_N}, info.id) == r.0'),
                  ('C14:other_keys_do_not_move', f'forall|x: usize| x != info.id ==> spec_get({IDS_N}, x) == #[trigger] spec_get({IDS_O}, x)'),
-                 ('C14:keeps_ids_unique', f'old(self).wf() && spec_get({IDS_O}, info.id) == 0 ==> final(self).wf()')],
+                 ('C14:keeps_ids_unique', f'old(self).wf() && !(spec_get({IDS_O}, info.id) > 0) ==> final(self).wf()')],
         inject=[(r'self\.order\.push\(', 'proof { let w = self.order@.last(); lemma_ids_edits(old(self).order@, 0, w); lemma_push_all(' + IDS_O + ', info.id); }')])
     A = 'info.id'
     IDS1 = f'(if spec_get({IDS_O}, {A}) > 0 {{ {IDS_O}.remove(spec_get({IDS_O}, {A}) - 1) }} else {{ {IDS_O} }})'
     G1 = f'spec_get({IDS1}, id)'
-    for (key, name, at, rel) in (('order_insert_after', 'insert_after', f'{G1}', 'spec_get(final(self).ids(), info.id) == spec_get(final(self).ids(), id) + 1'),
-                                 ('order_insert_before', 'insert_before', f'({G1} - 1)', 'spec_get(final(self).ids(), info.id) + 1 == spec_get(final(self).ids(), id)')):
+    for (key, name, at, k, rel) in (
+            ('order_insert_after', 'insert_after', f'{G1}', 'order as int', 'spec_get(final(self).ids(), info.id) == spec_get(final(self).ids(), id) + 1'),
+            ('order_insert_before', 'insert_before', f'({G1} - 1)', '(order - 1) as int', 'spec_get(final(self).ids(), info.id) + 1 == spec_get(final(self).ids(), id)')):
         fns[key] = Fn(
-            FI, OWN, name, props=P, sig_rules=[PUB, R_SING], rules=[R_DOWN, R_INFOID], label=f'DocumentOrder::{name}', requires=[VER2],
-            ensures=[('C14:reference_present_inserts_next_to_it', f'{G1} > 0 ==> r is Some && final(self).version > old(self).version && {IDS_N} =~= {IDS1}.insert({at}, Some({A}))'),
+            FI, OWN, name, props=P, sig_rules=[PUB, R_SING], rules=[R_DOWN, R_INFOID], label=f'DocumentOrder::{name}',
+            requires=[VER2, ('ids_unique', 'old(self).wf()')],
+            ensures=[('C14:reference_present_succeeds', f'{G1} > 0 && id != {A} ==> r is Some && final(self).version > old(self).version'),
+                     ('C14:inserts_next_to_reference', f'r is Some ==> {IDS_N} =~= {IDS1}.insert({at}, Some({A}))'),
                      ('C14:failed_call_changes_nothing', f'r is None ==> {IDS_N} =~= {IDS_O} && final(self).version == old(self).version'),
-                     ('C14:fails_only_without_reference', f'r is None ==> spec_get({IDS_O}, id) == 0 || id == {A}'),
-                     ('C14:keeps_ids_unique', 'old(self).wf() ==> final(self).wf()'),
-                     ('C14:key_is_adjacent_to_reference', f'old(self).wf() && r is Some ==> {rel}')])
+                     ('C14:fails_only_without_reference', f'r is None ==> !(spec_get({IDS_O}, id) > 0) || id == {A}'),
+                     ('C14:keeps_ids_unique', 'final(self).wf()'),
+                     ('C14:key_is_adjacent_to_reference', f'r is Some ==> {rel}')],
+            inject=[(r'^\s*return None;', 'proof { if spec_get(self.ids(), info.id) > 0 { lemma_remove_first(self.ids(), info.id); } }', 'before optional'),
+                    (r'let order = self\.get\(id\);', 'let ghost __o1 = self.order@;'),
+                    (r'self\.version \+= 1;', f'proof {{ lemma_ids_edits(__o1, {k}, self.order@[{k}]); lemma_insert_at(ids_of(__o1), {k}, info.id); }}')])
     return ENV, fns
 
 
